@@ -36,8 +36,12 @@ var tokenizerCtors = map[string][2]string{
 	"mustache":   {"mustache/tokenizers", "NewMustacheTokenizer"},
 }
 
-func (c *Ctx) newTkHarness(kind string) *tkHarness {
-	h := &tkHarness{c: c, m: newMach(c)}
+func (c *Ctx) newTkHarness(kind string) *tkHarness { return c.newTkHarnessOn(newMach(c), kind) }
+
+// newTkHarnessOn builds a tokenizer on an existing machine (instances on one machine share the
+// package-level state of the program under evaluation, as instances in one process do).
+func (c *Ctx) newTkHarnessOn(m *mach, kind string) *tkHarness {
+	h := &tkHarness{c: c, m: m}
 	h.m.maxSteps = 3000000
 	spec, ok := tokenizerCtors[kind]
 	if !ok {
